@@ -194,12 +194,12 @@ PafStatus(c, animal) ==
        ELSE IF \E n \in 1..Len(animal) : Touch(animal[n]) THEN "margin"
        ELSE "out"
 
-\* class of an edge a -> b:  "missing" endpoint, "zero" length, "sub" (0 < length < 1 px: excluded,
-\* the implementation clamps the projection denominator at 1 px^2), "ok"
+\* class of an edge a -> b:  "missing" endpoint, "zero" length, "ok" (any positive length, sub-pixel edges
+\* included: the projection denominator is the squared length itself, see fix "sub-pixel edges" in known_findings)
 EdgeClass(a, b) ==
     IF ~Visible(a) \/ ~Visible(b) THEN "missing"
     ELSE LET vv == Sq(b[1] - a[1]) + Sq(b[2] - a[2])
-         IN IF vv = 0 THEN "zero" ELSE IF vv < 4 THEN "sub" ELSE "ok"
+         IN IF vv = 0 THEN "zero" ELSE "ok"
 
 \* exact squared distance from lattice point p to the segment a-b, times |b-a|^2 (an integer in
 \* (1/2 px)^4; the common factor |b-a|^2 > 0 does not change the order of distances)
@@ -255,7 +255,6 @@ PafEdgeVerdict(c, k) ==
     IN IF cls = "missing" THEN (IF zero THEN "ok" ELSE "missing_endpoint_not_zero")
        ELSE IF cls = "zero" THEN (IF zero THEN "ok" ELSE "zero_length_edge_not_zero")
        ELSE IF st = "out" THEN (IF zero THEN "ok" ELSE "outside_animal_not_zero")
-       ELSE IF cls = "sub" THEN "ok"
        ELSE IF st = "margin" /\ zero THEN "ok"
        ELSE PafFieldVerdict(c, k, a, b)
 
